@@ -240,6 +240,27 @@ def c28_generated_source():
                "true" if facts["idReadUnderLock"] else "false"))
 
 
+def write_status_facts():
+    """SFTPFile._async_response recognises the answer to a pipelined write by testing membership of the request
+    number in the whole `_reqs` collection (`if num in self._reqs:`) and removes exactly that number
+    (`self._reqs.remove(num)`): answers are matched by id, in whatever order they arrive."""
+    from paramiko.sftp_file import SFTPFile
+
+    fn = ast.parse(textwrap.dedent(inspect.getsource(SFTPFile._async_response))).body[0]
+    ok = False
+    for st in fn.body:
+        if (isinstance(st, ast.If) and isinstance(st.test, ast.Compare) and len(st.test.ops) == 1
+                and isinstance(st.test.ops[0], ast.In) and isinstance(st.test.left, ast.Name) and st.test.left.id == "num"
+                and isinstance(st.test.comparators[0], ast.Attribute) and st.test.comparators[0].attr == "_reqs"):
+            removes = any(isinstance(c, ast.Call) and isinstance(c.func, ast.Attribute) and c.func.attr == "remove"
+                          and isinstance(c.func.value, ast.Attribute) and c.func.value.attr == "_reqs"
+                          and c.args and isinstance(c.args[0], ast.Name) and c.args[0].id == "num"
+                          for c in ast.walk(st))
+            ok = removes
+            break
+    return {"writeStatusMatchedById": ok}
+
+
 def lean_source():
     consts, branches, else_types, named = generate()
     pcounts, else_counts, helper_counts = path_counts()
@@ -279,6 +300,10 @@ def lean_source():
              "with add_int (4 bytes) whatever their value (AST) -/")
     L.append("def responsesUseFixedWidthFields : Bool := %s" % (
         "true" if fixed_width_facts()["responsesUseFixedWidthFields"] else "false"))
+    L.append("/-- SFTPFile._async_response: a pipelined write's answer is recognised by `num in self._reqs` (the whole "
+             "collection) and exactly that number is removed (AST) -/")
+    L.append("def writeStatusMatchedById : Bool := %s" % (
+        "true" if write_status_facts()["writeStatusMatchedById"] else "false"))
     facts = async_request_facts()
     L.append("/-- SFTPClient._async_request: the packet is sent outside the region that holds self._lock (AST) -/")
     L.append("def sendOutsideLock : Bool := %s" % ("true" if facts["sendOutsideLock"] else "false"))
